@@ -467,7 +467,19 @@ def c19(ctx):
     replay_cmd(ctx, binp, "replay-pair", vec, "pair", {"result", "panic"})
     # finders built from every valid pair report that pair and the documented minimum length
     replay_cmd(ctx, binp, "replay-pp", pvec, "pp", {"pair"})
-    ctx.evaluations += sum_exec(ctx, ["pair_exec", "pp_real_exec", "pp_scaled_exec"])
+    # I->S at the real scan cap: recorded needles 0..600 bytes x ranker table, and the whole with_indices matrix for
+    # needle lengths {0,1,2,3,254,255,256,600}; TLC (Trace_Pair, PAIRCAP = 255) decides validity and compares with the L-model
+    tr = os.path.join(ctx.dir, "pair_trace.ndjson")
+    rep, rc, err = C.run_harness(ctx, binp, ["record-pair", "--trace", tr, "--count", 150 if q else 2000], "rec_pair")
+    if rep is None:
+        raise ToolError("recorder failed rc=%s: %s" % (rc, err[-1500:]))
+    n_, viol, summ = C.validate_trace(ctx, "Trace_Pair", tr, sub(K_PAIR, PAIRCAP=255), "pair_trace", max_records=400, par=8)
+    for (pp, tup) in viol:
+        recd = C.record_at(pp, tup[1])
+        ctx.violation("pairtrace:%s" % tup[2], "recorded %s: %s" % (
+            "Pair::with_ranker result is not a valid pair (or the finder reports a different pair)" if tup[2] == "ranker" else "Pair::with_indices acceptance set is wrong",
+            {k: (v if k not in ("rank", "n") else "<%d bytes>" % len(v)) for k, v in recd.items()}), {"record": recd})
+    ctx.evaluations += n_ + sum_exec(ctx, ["pair_exec", "pp_real_exec", "pp_scaled_exec"])
     return C.finish(ctx, "model_checking",
                     "MC_Pair: all needles over a 3-letter alphabet x all 27 rankers (constant, non-injective, adversarial) with the scan transcribed step by step and the "
                     "cap scaled; invariants None <=> |n| < 2, offsets distinct, in range, below the cap, with_indices accepts exactly distinct in-range pairs; every "
